@@ -3,6 +3,8 @@ import numpy as np
 
 from vmon import gen, instr, models, oracles, scen
 
+from vmon.scale import S
+
 ID = 'C02'
 RULE = ('cases = EM trajectories (cACGMM, cWMM, GMM full/diagonal/spherical, GCACGMM with unit stream weights) on planted '
         'overlapping mixtures with N >= 4KD per slice and strictly positive starts; the hook reports every in-loop model, the '
@@ -20,7 +22,7 @@ KINDS = ['cacgmm', 'cwmm', 'gmm', 'gcacgmm']
 
 def plan(tier, seed):
     rng = np.random.default_rng([seed, 102])
-    n = 28 if tier == 'quick' else 260
+    n = S(tier, 28, 260)
     cases = []
     i = 0
     pick = lambda xs: xs[int(rng.integers(len(xs)))]
@@ -44,7 +46,8 @@ def plan(tier, seed):
                 o['wca'] = pick(scen.WCA['plain_lead'] + [-2] * 0)
             else:
                 o['wca'] = pick(scen.WCA['plain_nolead'])
-            o['saliency'] = pick(['none', 'none', 'pos', 'int'])
+            o['saliency'] = pick(['none', 'pos', 'pos', 'int'])
+            o['saliency_slice_scale'] = bool(rng.integers(0, 2))
             if kind in ('cacgmm', 'gcacgmm'):
                 o['covariance_norm'] = pick(['eigenvalue', 'trace', False])
                 o['hermitize'] = pick([True, True, False])
@@ -54,7 +57,7 @@ def plan(tier, seed):
                 if kind == 'gmm' and rng.uniform() < 0.1:
                     o['fixed_covariance'] = True
             iters = (8 if r % 3 else 15) if tier == 'quick' else int(pick([10, 20, 50]))
-            cases.append(dict(kind=kind, cls='gauss', K=K, N=N, D=D, lead=lead, init=pick(['dirichlet:1', 'dirichlet:10', 'blur:0.5', 'dirichlet:0.3']),
+            cases.append(dict(kind=kind, cls='gauss', K=K, N=N, D=D, lead=lead, spread=float(pick([0.5, 1.0, 1.5, 3.0])), init=pick(['dirichlet:1', 'dirichlet:10', 'blur:0.5', 'dirichlet:0.3']),
                               iters=iters, opts=o, rs=[seed, 2, i]))
             i += 1
     return cases
